@@ -538,7 +538,7 @@ type Clause struct {
 
 func (c *Clause) Tag() string {
 	if len(c.Props) == 0 && c.Label == "" {
-		return ""
+		return "[" + c.Where[strings.LastIndex(c.Where, ":")+1:] + "]"
 	}
 	return "[" + strings.Join(c.Props, ",") + ":" + c.Label + "]"
 }
